@@ -1336,6 +1336,23 @@ theorem normal_surface_repaired_on_domain (pu pv : ℕ) (Uu Uv : ℕ → F) (su 
       n.getD 0 0 * Sv 0 + n.getD 1 0 * Sv 1 + n.getD 2 0 * Sv 2 = 0 :=
   normalSurfaceR_true pu pv Uu Uv su sv P hUu hUv hlen hP u v hu1 hu2 hv1 hv2 Su Sv hSu hSv
 
+/-- **`operations.normal` of a RATIONAL 3-D surface through the repaired search** (op `nrmsr 1 …`), closed domain, per
+    direction `DomOk`: the result is the point entry of the tangent triple together with the cross product of the two
+    rational tangent vectors `Su`, `Sv` (whose values are given by `tangent_rational_surface_repaired_quotient_rule`), and
+    that vector is orthogonal to both. -/
+theorem normal_rational_surface_repaired_on_domain (pu pv : ℕ) (Uu Uv : ℕ → F) (su sv : ℕ) (Pw : List (List F)) (u v : F)
+    (hUu : DomOk pu Uu su) (hUv : DomOk pv Uv sv) (hlen : Pw.length = su * sv) (hP : NetOk (3+1) Pw)
+    (hu1 : Uu pu ≤ u) (hu2 : u ≤ Uu su) (hv1 : Uv pv ≤ v) (hv2 : v ≤ Uv sv)
+    (Su Sv : ℕ → F)
+    (hSu : ∀ c, Su c = (tangentSurface (ratSurfaceDers (surfaceDersA36R pu pv Uu Uv su sv Pw u v 1) 1)).2.1.getD c 0)
+    (hSv : ∀ c, Sv c = (tangentSurface (ratSurfaceDers (surfaceDersA36R pu pv Uu Uv su sv Pw u v 1) 1)).2.2.getD c 0) :
+    ∃ n, normalSurface (ratSurfaceDers (surfaceDersA36R pu pv Uu Uv su sv Pw u v 1) 1)
+        = some ((tangentSurface (ratSurfaceDers (surfaceDersA36R pu pv Uu Uv su sv Pw u v 1) 1)).1, n) ∧
+      n = [Su 1 * Sv 2 - Su 2 * Sv 1, Su 2 * Sv 0 - Su 0 * Sv 2, Su 0 * Sv 1 - Su 1 * Sv 0] ∧
+      n.getD 0 0 * Su 0 + n.getD 1 0 * Su 1 + n.getD 2 0 * Su 2 = 0 ∧
+      n.getD 0 0 * Sv 0 + n.getD 1 0 * Sv 1 + n.getD 2 0 * Sv 2 = 0 :=
+  normalSurfaceR_rational pu pv Uu Uv su sv Pw u v hUu hUv hlen hP hu1 hu2 hv1 hv2 Su Sv hSu hSv
+
 /-- non-vacuity / closed witness (inputs of `curve_derivatives_repaired_witness_F01b` (1)): degree 2,
     `U = [0,0,1,2,4,4,5,5]`, `u = 4 = U_5`: the tangent on the span the repaired search finds is (point `(3,1)`, first
     derivative `(1,1)` of the piece on `[2,4]`); on the empty span 4 of the search without step back it is all zeros. -/
